@@ -41,7 +41,7 @@ func loadUniverse() (*Universe, error) {
 		if !filepath.IsAbs(p) {
 			p = filepath.Join(repoRoot(), p)
 		}
-		fd, err := protoparse.ParseFileWithDeps(p, rf.ProtoName, picoFD)
+		fd, err := protoparse.ParseFileWithDeps(p, rf.ProtoName, append([]*descriptorpb.FileDescriptorProto{picoFD}, wellKnown()...)...)
 		if err != nil {
 			return nil, fmt.Errorf("%s: %v", rf.ProtoPath, err)
 		}
